@@ -55,10 +55,10 @@ def header_view_record(fb, cls):
             inner = strip_all_casts(e["e"])
             if inner.get("k") == "call" and (inner.get("callee") or {}).get("nm") == "data":
                 o = strip(inner.get("obj", {}))
-                if o.get("k") == "member" and o.get("name") == "payloadData":
+                if fb.is_payload_buffer(o):
                     ok = True
     if not ok or not rec:
-        raise Broken("%s::getHeader is not `reinterpret_cast<Header*>(payloadData.data())`" % cls)
+        raise Broken("%s::getHeader is not `reinterpret_cast<Header*>(<payload buffer>.data())`" % cls)
     return rec
 
 
